@@ -267,7 +267,7 @@ def run(ctx):
         raw = np.round(rs.uniform(-1, 1, size=m) * 16) / 16
         raw[rs.rand(m) < 0.3] *= 0.125
         eps = float(Fraction(c["eps"]))
-        model = types.SimpleNamespace(arguments=types.SimpleNamespace(min_meaningful_covariance=eps))
+        model = tu.real_model([np.eye(n)], [np.zeros(n)], 1, 4, eps=eps)
         keep = raw.copy()
         out = gl._reconstruct_optimized_matrix(model, raw)
         full = mc.reinflate_matrix(keep)
